@@ -1,1 +1,113 @@
+// Package refcurve is an independent arbitrary-precision (math/big) reference model of every
+// elliptic curve the library under test supports. It is the oracle for the properties C13
+// (encodings), C14 (arithmetic), C15 (independent signature verification) and C19 (hash-to-curve
+// lands in the prime-order subgroup).
+//
+// It imports nothing from github.com/bronlabs/bron-crypto: all constants are typed in from the
+// standards (SEC 2, FIPS 186, RFC 7748, RFC 8032, the Pasta and BLS12-381 specifications) and are
+// cross-checked by the package's own tests (`go test ./vlib/refcurve`, no build tags needed)
+// against mathematical identities, crypto/elliptic, crypto/ecdh, crypto/ecdsa, crypto/ed25519
+// and published test vectors. Conversions between library objects and model objects are NOT
+// here; harness packages build model points from coordinate byte strings (FromAffineBytesBE …)
+// and compare encodings.
+//
+// Everything is written for obviousness, not speed: affine textbook formulas, one modular
+// inversion per group operation, ≈ 1.5–2.5 ms CPU per 256-bit scalar multiplication (≈ 5 ms on
+// BLS12-381 G2). The code is allocation-heavy (≈ 1 MB per scalar multiplication); when many
+// test processes share a machine, run them with a small GOMAXPROCS and/or GOGC=400 so that
+// the garbage collector's worker threads do not dominate.
+//
+// Values are immutable: no function modifies the big.Ints reachable from its arguments,
+// results may share big.Ints with arguments and with curve constants, and callers must not
+// modify any *big.Int obtained from this package. All functions are safe for concurrent use.
+//
+// # Curves
+//
+//	K256() P256() Pallas() Vesta()    y² = x³ + A·x + B over F_p           Kind WeierstrassFp, H = 1
+//	BLS12381G1()                      y² = x³ + 4 over F_p                 Kind WeierstrassFp, H = 0x396c…aaab
+//	BLS12381G2()                      y² = x³ + 4(1+u) over F_p²           Kind WeierstrassFp2
+//	Ed25519()                         −x² + y² = 1 + d·x²·y²               Kind TwistedEdwards, H = 8
+//	Curve25519()                      v² = u³ + 486662·u² + u              Kind Montgomery (full (u,v) points), H = 8
+//	All() []*Curve, ByName(name) *Curve
+//
+//	type Curve struct{ Name; Kind; P; A, B, A1, B1, D; N (prime subgroup order); H (cofactor); G; ByteLen }
+//	(c) Order() N, Cofactor() H, Generator() G, GroupOrder() H·N
+//
+// # Points
+//
+//	type Point struct{ X, Y *big.Int; X1, Y1 *big.Int (u-coefficients over F_p², else nil); Inf bool }
+//
+// The neutral element is Inf on Weierstrass and Montgomery curves and the affine point (0, 1) on
+// edwards25519 (Inf is never set there). On curve25519 the point (0, 0) is the point of order 2.
+//
+//	Infinity() Point; (c) Neutral() Point; (c) IsNeutral(p) bool
+//	(c) NewPoint(x, y) / NewPointFp2(x, y Fp2)                unchecked construction (coordinates reduced)
+//	(c) FromAffine(x, y) / FromAffineFp2(x, y Fp2)            checked: coordinates < p (ErrRange), on curve (ErrNotOnCurve)
+//	(c) FromAffineBytesBE(x, y) / FromAffineBytesLE / FromAffineBytesBEFp2(xA, xB, yA, yB []byte)
+//	(c) AffineBytesBE(p) / AffineBytesLE(p) (x, y []byte)     fixed width ByteLen
+//	(p) XFp2() / YFp2() Fp2
+//
+// # Group operations (any point of E, not only the prime-order subgroup)
+//
+//	(c) IsOnCurve(p) bool; Equal(p, q) bool; Neg(p); Add(p, q) (complete); Double(p); Sub(p, q)
+//	(c) ScalarMul(p, k) — naive affine double-and-add; k any integer, negative = [|k|](−p), never reduced
+//	(c) ScalarMulProjective(p, k) — same function by Jacobian / projective formulas (second opinion)
+//	(c) ScalarBaseMul(k); MultiScalarMul(ps, ks)
+//	(c) IsInPrimeSubgroup(p) = [N]p neutral; IsSmallOrder(p) = [H]p neutral; PointOrder(p, bound) int
+//
+// # Solving the curve equation
+//
+//	SqrtFp(a, p) (root, ok) — Tonelli–Shanks, smaller root; LegendreFp(a, p) int; IsLargestFp(y, p) bool
+//	SqrtFp2(x Fp2) (Fp2, ok)
+//	(c) LiftX(x, oddY) (Point, ok)              Weierstrass over F_p, Montgomery (u ↦ v)
+//	(c) LiftXLargest(x Fp2, largestY) (Point, ok) Weierstrass over F_p / F_p², ZCash ordering of the roots
+//	(c) LiftY(y, oddX) (Point, ok)              twisted Edwards
+//
+// # F_p² (BLS12-381 only): Fp2{A, B} = A + B·u, u² = −1
+//
+//	NewFp2(a, b); Fp2FromInt64(a, b); (x) Add Sub Mul Square Neg Conj Reduce; Inv() (Fp2, ok); Sqrt() (Fp2, ok)
+//	(x) Equal IsZero IsLargest (ZCash lexicographic order: u-coefficient first) Sgn0 (RFC 9380)
+//
+// # Special points for negative tests
+//
+//	(c) SearchPoint(start) Point                  first point with abscissa ≥ start (arbitrary point of E)
+//	(c) PointOutsideSubgroup(start) (Point, ok)   [N]P ≠ neutral — e.g. E(F_p)∖G1, E'(F_p²)∖G2; ok=false if H = 1
+//	(c) CofactorPoint(start) (Point, ok)          non-neutral point killed by H
+//	(c) SmallOrderPoints() ([]Point, orders)      the 8 torsion points of edwards25519 / curve25519, constructed
+//	(c) MixedOrderPoint(k, j) Point               [k]G + SmallOrderPoints()[j]
+//	(c) TwistX(start) *big.Int / TwistXFp2(start) Fp2   abscissa with no point ("x with no y")
+//
+// # Encodings (each written from its specification)
+//
+// Decoders return (Point, Issue, error). error: the bytes denote no point (ErrLength, ErrFlags,
+// ErrNotOnCurve). Issue ≠ 0: a lenient decoder would obtain the returned point but the input is
+// not its canonical encoding (IssueRange: coordinate ≥ p, reduced; IssueFlags: an information-free
+// flag/sign bit is set). Issue == 0 ⇔ re-encoding reproduces the input. Decoders never check
+// subgroup membership.
+//
+//	(c) EncodeSEC1(p, compressed) / DecodeSEC1(b)       SEC 1 §2.3.3–4: 00 | 02/03‖X | 04‖X‖Y (F_p Weierstrass curves)
+//	(c) EncodePasta(p, compressed) / DecodePasta(b)     pasta_curves crate: 32 B LE x + parity in bit 255, zeros = identity; 64 B x‖y
+//	EncodeEd25519(p) / DecodeEd25519(b)                 RFC 8032 §5.1.2–3
+//	EncodeU(u) / DecodeU(b) (u, Issue)                  RFC 7748 §5 u-coordinate
+//	(c) EncodeZcash(p, compressed) / DecodeZcash(b)     ZCash BLS12-381: 48/96 B (G1), 96/192 B (G2), three flag bits
+//
+// # X25519
+//
+//	X25519(k, u []byte) ([]byte, error); X25519Ladder(k, u, bits) *big.Int; X25519Clamp(k) *big.Int
+//	EdwardsToMontgomery(p) / MontgomeryToEdwards(p) Point; SqrtMinus486664()
+//
+// # Signatures
+//
+//	(c) TruncateDigest(digest) e; ECDSAVerify(Q, digest, r, s) bool; ECDSAVerifyE(Q, e, r, s) bool
+//	(c) ECDSASign(d, digest, k) (r, s, v, ok); ECDSARecover(digest, r, s, v) (Point, ok); IsLowS(s) bool
+//	(c) SchnorrEquation(s, R, e, P) bool                [s]G == R + [e]P
+//	TaggedHash(tag, parts...); BIP340LiftX(x); BIP340Challenge(rx, px, msg); BIP340Verify(pk, msg, sig) bool
+//	BIP340PubKey(sk) ([]byte, ok); BIP340Sign(sk, msg, aux) ([]byte, ok)
+//
+// # RFC 9380
+//
+//	ExpandMessageXMD(hashNew, msg, dst, n); ExpandMessageXOF(newXOF, k, msg, dst, n); ExpandMessageSHAKE128/256(msg, dst, n)
+//	HashToField(expand, msg, dst, p, m, L, count); HashToFieldXMD(hashNew, msg, dst, p, m, L, count) [][]*big.Int
+//	Sgn0Fp(x, p); (c) MapToCurveSSWU(Z, u) Point; P256SSWUZ()
+//	HashToCurveP256(msg, dst) (P, u[2], Q[2], err); EncodeToCurveP256(msg, dst) (P, err)
 package refcurve
